@@ -25,7 +25,7 @@ def main():
     ids = sys.argv[1:] or sorted(os.path.basename(os.path.dirname(p))
                                  for p in glob.glob(os.path.join(HERE, "seeded_benign", "*", "patch.diff")))
     bad = 0
-    with concurrent.futures.ThreadPoolExecutor(max_workers=4) as ex:
+    with concurrent.futures.ThreadPoolExecutor(max_workers=int(os.environ.get("CHECK_BENIGN_WORKERS", "4"))) as ex:
         futs = {i: ex.submit(run, os.path.join(HERE, "seeded_benign", i, "patch.diff")) for i in ids}
         for i in ids:
             res = futs[i].result()
